@@ -109,6 +109,8 @@ class Policy(object):
         self.pause_as_paused = False
         self.cancel_as_canceled = False
         self.resume = True
+        self.lazy_start = 0  # >0: up to that many times an offered task is started only after a further event (relaxes A2)
+        self.lazy_after_rerun = False
         self.rerun = None  # None | "default" | "explicit": one rerun request once the workflow has completed
         self.rerun_steps = 4
         self.rerun_ghost = False
@@ -161,6 +163,7 @@ class Env(object):
         self.extra_req_done = False
         self.ctl_done = False
         self.script = []
+        self.defers = 0
         self.rerun_done = False
         self.rerun_rejected = None
         self.rerun_names = []
@@ -250,8 +253,20 @@ class Env(object):
             sort_keys=True, default=str))
         for m in self.monitors:
             m.on_offer(self, nt)
+        deferred = []
         for t in nt:
+            if self.policy.lazy_start and self.defers < self.policy.lazy_start and (self.rerun_done or not self.policy.lazy_after_rerun):
+                # relaxed A2: the provider may process another event before it starts an offered
+                # task; the conductor keeps offering it until it is started
+                if self.ch.flag("defer%d:%s/%d" % (self.defers, t["id"], t["route"])):
+                    self.defers += 1
+                    deferred.append(t)
+                    self.log.append("~%s" % t["id"])
+                    continue
             self.start_task(t)
+        if deferred and not self.inflight:
+            for t in deferred:
+                self.start_task(t)
         for m in self.monitors:
             m.after_offers(self, nt)
         return nt
@@ -402,7 +417,7 @@ class Env(object):
     # ---- choices ---------------------------------------------------------------------
     def choose_outcome(self, act):
         p = self.policy
-        key = ("o:%s#%d" % (act.label(), act.visit)) if p.by_task else ("o%d" % self.step)
+        key = ("o:%s" % act.task) if p.by_task else ("o%d" % self.step)
         if self.rerun_done and p.rerun_ok:
             status = S.SUCCEEDED
         elif len(p.statuses) == 2:
@@ -416,14 +431,17 @@ class Env(object):
         bits = (False, False)
         conds = [c for c, _, _ in self.wf.transitions(act.task)] if act.task in self.wf.tasks else []
         if p.bits and any(c in ("c0", "c1") for c in conds):
-            bkey = ("b:%s#%d" % (act.label(), act.visit)) if p.by_task else ("b%d" % self.step)
+            bkey = ("b:%s" % act.task) if p.by_task else ("b%d" % self.step)
             bits = (self.ch.flag(bkey + ".0"), self.ch.flag(bkey + ".1"))
         result["c0"], result["c1"] = bits
         if p.tokens and act.task in self.wf.tasks:
             for k, (cond, pubs, do) in enumerate(self.wf.transitions(act.task)):
                 for pv in pubs:
                     if isinstance(pv, str):
-                        result["t%d_%s" % (k, pv)] = "%s#v%d.%d.%s" % (act.label(), act.visit, k, pv)
+                        if p.by_task:
+                            result["t%d_%s" % (k, pv)] = "%s.%d.%s" % (act.task, k, pv)
+                        else:
+                            result["t%d_%s" % (k, pv)] = "%s#v%d.%d.%s" % (act.label(), act.visit, k, pv)
         act.bits = bits
         return status, result
 
